@@ -1368,6 +1368,10 @@ func (st *Runtime) evaluateArgs(fnType reflect.Type, args CallArgs, pipedArg *re
 
 	if !args.HasPipeSlot && pipedArg != nil {
 		in := fnType.In(slot)
+		if isVariadic && numArgsRequired == 0 {
+			// the piped value is the first element of the variadic tail
+			in = in.Elem()
+		}
 		if !(*pipedArg).IsValid() {
 			return nil, fmt.Errorf("piped first argument for %s is not a valid value", fnType)
 		}
